@@ -89,6 +89,9 @@ func genGate(r *lib.Rng, tier string) Case {
 			n = 65537
 		}
 		o := GOp{Op: "W", N: n, S: start}
+		if r.Chance(1, 6) {
+			o.Op = "S" // WriteString
+		}
 		start = (start + n + 7) % 256
 		return o
 	}
@@ -268,6 +271,17 @@ func holdCase(r *lib.Rng, closing bool, ms int) Case {
 	return c
 }
 
+// the consumer is parked, n small chunks queue up behind it, then Flush / Close
+func backlogCase(depth, bsize, n int, ctl string) Case {
+	c := Case{Kind: "gate", Cap: depth, Bsize: bsize}
+	c.Ops = append(c.Ops, GOp{Op: "W", N: bsize + 1, S: 3})
+	for i := 0; i < n; i++ {
+		c.Ops = append(c.Ops, GOp{Op: "W", N: 1 + i%3, S: (7 * i) % 256})
+	}
+	c.Ops = append(c.Ops, GOp{Op: ctl}, GOp{Op: "D"}, GOp{Op: "W", N: 2, S: 9}, GOp{Op: "D"})
+	return c
+}
+
 func w(n, s int) GOp { return GOp{Op: "W", N: n, S: s} }
 
 func corpus() []Case {
@@ -283,6 +297,11 @@ func corpus() []Case {
 		{Kind: "gate", Cap: 2, Bsize: 4, Ops: []GOp{w(3, 0), w(3, 10), op("F"), w(1, 20), w(1, 30), w(1, 40), op("R"), op("R"), op("C"), w(2, 50), op("D")}},
 		// depth 1, empty chunks, Flush on an empty writer
 		{Kind: "gate", Cap: 1, Bsize: 1, Ops: []GOp{op("F"), w(0, 0), w(0, 0), w(1, 5), w(2, 6), w(1, 9), op("R"), op("F"), op("D")}},
+		// WriteString interleaved with Writes while the consumer is parked, and into an idle writer
+		{Kind: "gate", Cap: 4, Bsize: 8, Ops: []GOp{{Op: "S", N: 5, S: 1}, w(9, 10), w(2, 30), {Op: "S", N: 3, S: 40}, w(1, 50), {Op: "S", N: 12, S: 60}, op("F"), op("R"), {Op: "S", N: 2, S: 80}, op("D")}},
+		// a backlog of hundreds of queued chunks at Flush and at Close
+		backlogCase(1000, 4096, 300, "C"),
+		backlogCase(700, 16, 600, "F"),
 		// documented misuse
 		{Kind: "gate", Cap: 2, Bsize: 8, Ops: []GOp{w(3, 0), op("C"), op("D"), op("F")}},
 		{Kind: "gate", Cap: 2, Bsize: 8, Ops: []GOp{w(3, 0), op("C"), op("D"), w(1, 1), w(1, 2), w(1, 3), op("C")}},
